@@ -167,7 +167,35 @@ def explore(ctx, rng, count):
             ctx.diffs.append(d)
 
 
+def modular_stream(ctx, rng, count):
+    """Supported multi-assertion specifications (named sub-specifications, repeated references, assertions nobody refers to,
+    declared constants, explicit units) on the offline, online and pastified online monitors: every call returns normally."""
+    from .. import modular
+    for _ in range(count):
+        mon = rng.choice(["offd", "ond", "past"])
+        allow = (F.ALL_DISCRETE_OFFLINE - {"fn", "ufuture", "until"}) if mon == "past" else \
+            (F.PAST_ONLY - {"fn"} if mon == "ond" else F.ALL_DISCRETE_OFFLINE - {"fn"})
+        c = modular.gen_case(rng, allow, mon)
+        ctx.evaluations += 1
+        ctx.count("kind:modular-" + mon)
+        out = modular.run_discrete(c, mon, modular=True, read_names=True)
+        if out[0] != "ok":
+            ctx.violations.append(Violation("%s monitor: %r on the supported multi-assertion specification %s"
+                                            % (mon, out[1:], modular.spec_text(c).replace("\n", " ")),
+                                            dict(modular.rep_of(c), kind="modular", monitor=mon, impl=out), stream="wf/modular"))
+            if len(ctx.violations) >= 3:
+                return
+        else:
+            ctx.traces_validated += 1
+            ctx.nontrivial.add(("modular", mon, modular.spec_text(c)))
+
+
 def replay(ctx, obj):
+    if obj.get("kind") == "modular":
+        from .. import modular
+        c = modular.case_of_rep(obj)
+        out = modular.run_discrete(c, obj["monitor"], modular=True, read_names=True)
+        return out[0] == "ok", ("returns normally" if out[0] == "ok" else "raised %r" % (out[1:],))
     if obj.get("kind", "").endswith("c"):
         from .. import dense
         return dense.replay_wf(ctx, obj)
@@ -180,6 +208,8 @@ def replay(ctx, obj):
 
 def run(ctx):
     explore(ctx, ctx.subrng("wf"), ctx.budget(500, 8000))
+    if not ctx.violations:
+        modular_stream(ctx, ctx.subrng("wf-mod"), ctx.budget(300, 4000))
     if not ctx.violations:
         try:
             from .. import dense
